@@ -271,12 +271,17 @@ def gen_token(rng, consts):
         t = rng.choice(consts)
         return ("const", t, (t, None))
     if k == 10:
-        body = "".join(rng.choice(['a', ' ', '\\"', "\\", "#", "1", "to", "\n", "μ", "x"]) for _ in range(rng.randrange(0, 6)))
+        body = "".join(rng.choice(['a', ' ', '\\"', "\\", "#", "1", "to", "\n", "μ", "x"] + (QUOTE_LIKE if rng.random() < 0.25 else []))
+                       for _ in range(rng.randrange(0, 6)))
         if body.endswith("\\"):
             body += "n"
         return ("str", '"' + body + '"', ("string", body))
     body = "".join(rng.choice("2024-01T:5 a\"") for _ in range(rng.randrange(0, 8)))
     return ("inst", "#" + body + "#", ("instant", body))
+
+
+# characters that LOOK like a string or instant delimiter and are ordinary content of a literal: only `"` closes a string
+QUOTE_LIKE = ["\u201c", "\u201d", "\u2018", "\u2019", "\u201e", "\u00ab", "\u00bb", "'", "`", "\u2033", "\uff02", "\uff03", "\u266f"]
 
 
 def gen_random(rng, maxlen):
@@ -347,7 +352,7 @@ def check(ctx):
             add("a " + w + c + " 1", "keyword")
     for _ in range(ctx.n(300, 4000)):
         pre = " ".join(gen_token(rng, consts)[1] for _ in range(rng.randrange(0, 3)))
-        body = "".join(rng.choice(['a', ' ', '\\"', "\\", "1", "μ", "#"]) for _ in range(rng.randrange(0, 6)))
+        body = "".join(rng.choice(['a', ' ', '\\"', "\\", "1", "μ", "#"] + (QUOTE_LIKE if rng.random() < 0.3 else [])) for _ in range(rng.randrange(0, 6)))
         add(pre + " \"" + body, "unclosed")
         add(pre + " #" + body.replace("#", ""), "unclosed")
     # ---- ordered pairs of token kinds adjacent with and without whitespace
